@@ -335,7 +335,7 @@ impl Loader for GuardedFs {
     }
 }
 
-const SHM: &str = "/dev/shm/a02-c02";
+const SHM: &str = "/dev/shm/a02/c02";
 
 fn run_fs(case: &Case, ps: &[String], budget: usize) -> Result<Real, String> {
     let dir = format!(
@@ -765,5 +765,6 @@ fn main() {
         );
     }
     let _ = std::fs::remove_dir_all(SHM);
+    let _ = std::fs::remove_dir("/dev/shm/a02"); // only when empty
     ck.finish()
 }
